@@ -12,6 +12,8 @@ using namespace bpp;
 // From the STL:
 #include <cmath>
 
+#include <limits>
+
 using namespace std;
 
 /** Constructor: **************************************************************/
@@ -85,7 +87,40 @@ void GammaDiscreteDistribution::fireParameterChanged(const ParameterList& parame
 
 double GammaDiscreteDistribution::qProb(double x) const
 {
-  return offset_ + RandomTools::qGamma(x, alpha_, beta_);
+  double q = RandomTools::qGamma(x, alpha_, beta_);
+  if (q < 0)
+  {
+    // qGamma does not cover the far tails: it answers its error value -1 for probabilities below
+    // 0.000002 and above 0.999998.  There the quantile is the smallest point where pGamma reaches
+    // the probability, found by bisection.
+    if (!(x > 0))
+      return offset_;
+    if (!(x < 1))
+      return std::numeric_limits<double>::infinity();
+    double up = alpha_ / beta_;
+    while (RandomTools::pGamma(up, alpha_, beta_) < x && up < NumConstants::VERY_BIG())
+    {
+      up *= 2;
+    }
+    double low = up;
+    while (low > 0 && RandomTools::pGamma(low, alpha_, beta_) >= x)
+    {
+      up = low;
+      low /= 2;
+    }
+    for (int i = 0; i < 64; ++i)
+    {
+      double mid = low + (up - low) / 2;
+      if (!(mid > low && mid < up))
+        break;
+      if (RandomTools::pGamma(mid, alpha_, beta_) < x)
+        low = mid;
+      else
+        up = mid;
+    }
+    q = up;
+  }
+  return offset_ + q;
 }
 
 
